@@ -70,6 +70,48 @@ def _ref_permeance(exps, t, mw):
     return val, ea, 1e-9 + (unc + 1e-7 * abs(ea)) / R * abs(dinv) * (0 if e["Ea"] is not None else 1), tie
 
 
+def _loaded_twin(case, mem, comps, t):
+    import os
+    import shutil
+    import tempfile
+
+    d = tempfile.mkdtemp(prefix="pvverif-c12-")
+    try:
+        mdir = os.path.join(d, "MEMBRANE")
+        os.makedirs(mdir)
+        names = {id(comps[0]): case["c1"]["builtin"], id(comps[1]): case["c2"]["builtin"]}
+        with open(os.path.join(mdir, "ideal_experiments.csv"), "w") as fh:
+            fh.write("name,temperature,component,activation_energy,permeance,units,comment\n")
+            for e in mem.ideal_experiments.experiments:
+                fh.write("%s,%r,%s,%s,%r,%s,c\n" % (e.name, float(e.temperature), names[id(e.component)],
+                                                   "" if e.activation_energy is None else repr(float(e.activation_energy)),
+                                                   float(e.permeance.value), e.permeance.units))
+        loaded = call(build.Membrane.load, mdir)
+        require(not is_raised(loaded), "Membrane.load of a membrane directory with ideal_experiments.csv raised %r", loaded)
+        require(len(loaded.ideal_experiments.experiments) == len(mem.ideal_experiments.experiments), "%d experiments tabulated, %d loaded",
+                len(mem.ideal_experiments.experiments), len(loaded.ideal_experiments.experiments))
+        for comp in comps:
+            # an experiment temperature is queried as the loaded membrane holds it (text parsing may move it by one rounding)
+            tq = t
+            for a, b in zip(mem.ideal_experiments.experiments, loaded.ideal_experiments.experiments):
+                if a.component is comp and a.temperature == t:
+                    tq = b.temperature
+            want, got = call(mem.get_permeance, t, comp), call(loaded.get_permeance, tq, comp)
+            require(is_raised(want) == is_raised(got), "permeance of %s at %r K: membrane built from objects gives %r, the same experiments "
+                    "loaded from ideal_experiments.csv give %r", comp.name, t, want, got)
+            if not is_raised(want):
+                require(got.units == want.units and relerr(got.value, want.value) <= 1e-9,
+                        "permeance of %s at %r K: membrane built from objects gives %r, the same experiments loaded from "
+                        "ideal_experiments.csv (blank activation energy = none stated) give %r", comp.name, t, want, got)
+            ea_w, ea_g = call(mem.calculate_activation_energy, comp), call(loaded.calculate_activation_energy, comp)
+            require(is_raised(ea_w) == is_raised(ea_g), "activation energy of %s: %r from objects, %r from the loaded table", comp.name, ea_w, ea_g)
+            if not is_raised(ea_w):
+                require(abs(float(ea_w) - float(ea_g)) <= 1e-7 * abs(float(ea_w)) + 1e-3, "activation energy of %s: %r from objects, %r from "
+                        "the loaded table", comp.name, float(ea_w), float(ea_g))
+    finally:
+        shutil.rmtree(d, ignore_errors=True)
+
+
 def check(case):
     try:
         return _check(case)
@@ -139,6 +181,12 @@ def _check(case):
         if ea is not None and abs(ea) > 1000.0:
             nontrivial = True
         classes.append("at-experiment" if ea is None else ("stated-Ea" if any(e["T"] != t and e["Ea"] is not None for e in exps) and ea in stated else "regressed-Ea"))
+
+    # the same experiments tabulated (ideal_experiments.csv of a membrane directory, blank cell = no stated activation energy)
+    # and loaded with Membrane.load: the same membrane
+    if "builtin" in case["c1"] and "builtin" in case["c2"]:
+        _loaded_twin(case, mem, (c1, c2), t)
+        classes.append("loaded-twin")
 
     # selectivities
     sw = call(mem.get_ideal_selectivity, t, c1, c2, "weight")
